@@ -111,6 +111,19 @@ class Hist:
                     with ca.mu:
                         ca.script = [{"kind": kind, "nth": ca.kind_count.get(kind, 0) + 1, "repeat": 1, "fault": "acme:" + typ + (":403" if typ == "unauthorized" else "")}]
                 steps.append(("call", setr))
+            elif k == "relink":
+                # the administrator keeps the account file elsewhere (another volume, a restored backup) and leaves a symbolic link in its place:
+                # nothing changes for the daemon, the link is followed for reading and for writing
+                def relink(sc):
+                    adir = sc.world.accounts
+                    for fn in sorted(os.listdir(adir)):
+                        p = os.path.join(adir, fn)
+                        if fn.endswith(".account.bin") and not os.path.islink(p):
+                            store = os.path.join(os.path.dirname(adir), "keystore")
+                            os.makedirs(store, exist_ok=True)
+                            os.rename(p, os.path.join(store, fn))
+                            os.symlink(os.path.join(store, fn), p)
+                steps.append(("call", relink))
             elif k == "forget":
                 steps.append(("call", (lambda e: (lambda sc: sc.cas[e].forget_account()))(op[1])))
         order = self.meta.get("contact_order") or ("as_sent", "reversed", "sorted")[hash(self.tag) % 3 if False else (sum(map(ord, self.tag)) % 3)]
@@ -132,6 +145,8 @@ def histories(tier, seed):
         [("renew", "A"), ("key", "rsa2048"), ("restart",), ("renew", "A"), ("key", "ed25519"), ("renew", "A")],
         [("renew", "A"), ("renew", "B"), ("both", c2, "ecdsa_p521"), ("renew", "B"), ("renew", "A")],
         [("renew", "A"), ("forget", "A"), ("renew", "A")],
+        [("renew", "A"), ("relink",), ("restart",), ("renew", "A"), ("key", "ecdsa_p384"), ("renew", "A")],
+        [("renew", "A"), ("renew", "B"), ("relink",), ("contacts", c2), ("renew", "B"), ("renew", "A")],
         [("renew", "A"), ("forget", "A"), ("both", c2, "rsa2048"), ("renew", "A"), ("renew", "A")],
         [("renew", "A"), ("forget", "A"), ("contacts", c2), ("renew", "A")],
         [("renew", "A"), ("eab", "kidA"), ("renew", "A"), ("eab", "kidB"), ("renew", "A"), ("eab", None), ("renew", "A")],
